@@ -275,13 +275,7 @@ rfbSendInteractionCaps(rfbClientPtr cl)
     rfbCapabilityInfo smsg_list[N_SMSG_CAPS];
     rfbCapabilityInfo cmsg_list[N_CMSG_CAPS];
     rfbCapabilityInfo enc_list[N_ENC_CAPS];
-    int i, n_enc_caps = N_ENC_CAPS;
-
-    /* Fill in the header structure sent prior to capability lists. */
-    intr_caps.nServerMessageTypes = Swap16IfLE(N_SMSG_CAPS);
-    intr_caps.nClientMessageTypes = Swap16IfLE(N_CMSG_CAPS);
-    intr_caps.nEncodingTypes = Swap16IfLE(N_ENC_CAPS);
-    intr_caps.pad = 0;
+    int i, n_smsg_caps = 0, n_cmsg_caps = 0, n_enc_caps = N_ENC_CAPS;
 
     rfbLog("tightvnc-filetransfer/rfbSendInteractionCaps\n");
 
@@ -299,6 +293,7 @@ rfbSendInteractionCaps(rfbClientPtr cl)
 			return;
 	    }
 	}
+    n_smsg_caps = i;
 
     /* Supported client->server message types. */
     /* For file transfer support: */
@@ -316,6 +311,7 @@ rfbSendInteractionCaps(rfbClientPtr cl)
 			return;
 	    }		
 	}
+    n_cmsg_caps = i;
 	
     /* Encoding types. */
     i = 0;
@@ -341,15 +337,23 @@ rfbSendInteractionCaps(rfbClientPtr cl)
 	return;
     }
 
+    /* Fill in the header structure sent prior to capability lists: announce
+       (and send) only the entries that were filled in above - without file
+       transfer (disabled, or view-only client) the message lists are empty. */
+    intr_caps.nServerMessageTypes = Swap16IfLE(n_smsg_caps);
+    intr_caps.nClientMessageTypes = Swap16IfLE(n_cmsg_caps);
+    intr_caps.nEncodingTypes = Swap16IfLE(n_enc_caps);
+    intr_caps.pad = 0;
+
     /* Send header and capability lists */
     if (rfbWriteExact(cl, (char *)&intr_caps,
 		   sz_rfbInteractionCapsMsg) < 0 ||
 	rfbWriteExact(cl, (char *)&smsg_list[0],
-		   sz_rfbCapabilityInfo * N_SMSG_CAPS) < 0 || 
+		   sz_rfbCapabilityInfo * n_smsg_caps) < 0 || 
 	rfbWriteExact(cl, (char *)&cmsg_list[0],
-		   sz_rfbCapabilityInfo * N_CMSG_CAPS) < 0  ||
+		   sz_rfbCapabilityInfo * n_cmsg_caps) < 0  ||
 	rfbWriteExact(cl, (char *)&enc_list[0],
-		   sz_rfbCapabilityInfo * N_ENC_CAPS) < 0) {
+		   sz_rfbCapabilityInfo * n_enc_caps) < 0) {
 	rfbLogPerror("rfbSendInteractionCaps: write");
 	rfbCloseClient(cl);	
 	return;
